@@ -94,7 +94,52 @@ def run_rt(prop, tier):
     if code is None:
         log("watchdog: %s did not finish within %ds: inconclusive" % (prop, limit))
         return 2
+    if code == 0 and tier == "thorough" and prop in ("C12", "C13", "C14"):
+        return fuzz_text(prop, exe)
     return code if code in (0, 1) else 2
+
+
+def fuzz_text(prop, exe):
+    """Thorough tier of the text-level properties: a libFuzzer campaign (fixed number of runs,
+    seed from VERIF_SEED, fresh corpus seeded with a few small texts) on the same oracle."""
+    import glob
+    import shutil
+
+    target = "text" + prop[1:]
+    fdir = os.path.join(ROOT, "fuzz")
+    corp = os.path.join(ROOT, "work", "fuzz_corpus", target)
+    art = os.path.join(ROOT, "work", "fuzz_artifacts", target) + os.sep
+    shutil.rmtree(corp, ignore_errors=True)
+    shutil.rmtree(art, ignore_errors=True)
+    os.makedirs(corp)
+    os.makedirs(art)
+    seeds = [b"", b"a", b"ab\ncd\n", b"\r\n\r\n", "\u00e9\u4e2d\U0001F600".encode("utf-8"), b"x\ny\nz\n1\n2\n3\n4\n", "\t\u4e2d\n".encode("utf-8")]
+    for i, sd in enumerate(seeds):
+        with open(os.path.join(corp, "seed%d" % i), "wb") as f:
+            f.write(b"\x40\x80\x00" + sd)
+    env = dict(ENV)
+    env["CARGO_TARGET_DIR"] = os.path.join(TARGET, "fuzz")
+    runs = {"C12": 20000000, "C13": 300000, "C14": 10000000}[prop]
+    cmd = ["cargo", "+nightly", "fuzz", "run", target, corp, "--", "-runs=%d" % runs, "-seed=%d" % (seed() + 1), "-max_len=96", "-len_control=0", "-artifact_prefix=" + art, "-print_final_stats=1"]
+    t = time.time()
+    code, out = run(cmd, cwd=fdir, env=env, capture=True, timeout=4 * 3600)
+    logp = os.path.join(ROOT, "work", "fuzz_%s.log" % target)
+    with open(logp, "w") as f:
+        f.write(out)
+    log("libFuzzer %s: status %s in %.0fs" % (target, code, time.time() - t))
+    arts = sorted(glob.glob(art + "*"))
+    if code is None:
+        log("libFuzzer campaign ran out of time: inconclusive")
+        return 2
+    if code != 0 and not arts and "ERROR: libFuzzer" not in out and "panicked" not in out:
+        sys.stderr.write(out[-3000:])
+        log("the fuzz target does not build or run: inconclusive")
+        return 2
+    cmd = [exe, "fuzzmerge", prop.lower(), "--log", logp]
+    if arts:
+        cmd += ["--artifact", arts[0]]
+    code2, _ = run(cmd, timeout=600)
+    return code2 if code2 in (0, 1) else 2
 
 
 def replay(path):
